@@ -458,15 +458,6 @@ class Exec:
             else:
                 raise Unsupported(f"indirect call through {fv!r}")
         canon = self.canonical(callee)
-        # `<T as Trait>::method` inside a generic crate function: bind the type parameter from the turbofish of the enclosing call
-        mt = re.match(r"^<([A-Z]) as ", canon)
-        if mt and getattr(self, "callsite_stack", None):
-            site = self.callsite_stack[-1]
-            groups = re.findall(r"::<([^<>]*(?:<[^<>]*>[^<>]*)*)>", site)
-            if groups and "," not in groups[-1]:
-                bound = groups[-1].strip()
-                callee = re.sub(r"^<" + mt.group(1) + r" as ", "<" + bound + " as ", callee.strip(), count=1)
-                canon = self.canonical(callee)
         for rx, fn in self.models:
             if rx.search(canon):
                 self.models_used.add(rx.pattern)
@@ -481,6 +472,17 @@ class Exec:
                 return self.call_fn(d, vals)
             finally:
                 self.callsite_stack.pop()
+        # `<T as Trait>::method` inside a generic crate function with neither a model nor MIR for the unbound form: bind the type
+        # parameter from the turbofish of the enclosing call and try once more
+        mt = re.match(r"^<([A-Z]) as ", canon)
+        if mt and getattr(self, "callsite_stack", None):
+            site = self.callsite_stack[-1]
+            groups = re.findall(r"::<([^<>]*(?:<[^<>]*>[^<>]*)*)>", site)
+            if groups and "," not in groups[-1]:
+                bound = groups[-1].strip()
+                callee2 = re.sub(r"^<" + mt.group(1) + r" as ", "<" + bound + " as ", callee.strip(), count=1)
+                if callee2 != callee.strip():
+                    return self.dispatch(fr, callee2, vals)
         raise Unsupported("no model for call: " + canon)
 
     def call_closure(self, clo, args):
